@@ -629,7 +629,7 @@ func genFsHdr(r *Rng) *fsHdr {
 		h.Content = Pick(r, fsData)
 		h.Size = int64(len(h.Content))
 		if r.Chance(90) {
-			h.Sum = hx(Pick(r, []string{"sum-one-sum-one-sum-1", "sum-two-sum-two-sum-2", h.Content}))
+			h.Sum = hx(Pick(r, []string{"sum-one-sum-one-sum-1", "sum-two-sum-two-sum-2", "sum-" + h.Content}))
 		}
 	case k < 65:
 		h.Typeflag = '2'
@@ -690,8 +690,14 @@ func genFsOp(r *Rng, backend string, nh int) fsOp {
 	case k < 555:
 		return fsOp{K: "symlink", P: Pick(r, append(append([]string{}, fsLinks...), p)), Q: Pick(r, fsTargets)}
 	case k < 590:
+		if r.Chance(70) {
+			return fsOp{K: "link", P: Pick(r, []string{"h1", "a/h2", "c/h3", "a/b/h4", "f", "a/f"}), Q: Pick(r, append(append([]string{}, fsFiles...), "a", "l", "l/f"))}
+		}
 		return fsOp{K: "link", P: fsAnyPath(r), Q: p}
 	case k < 640:
+		if r.Chance(50) {
+			return fsOp{K: "remove", P: Pick(r, append(append(append([]string{}, fsFiles...), fsLinks...), "h1", "a/h2", "c/h3", "a", "c"))}
+		}
 		return fsOp{K: "remove", P: p}
 	case k < 680:
 		return fsOp{K: "readfile", P: p}
@@ -727,6 +733,45 @@ func genFsOp(r *Rng, backend string, nh int) fsOp {
 		}
 		return fsOp{K: "stat", P: p}
 	}
+}
+
+// package installation through WriteHeader followed by the mutations apko applies afterwards
+func genFsPkgCase(r *Rng) fsCase {
+	c := fsCase{Backend: "tarfs", Kind: "pkg"}
+	c.Ops = append(c.Ops, fsOp{K: "wh", Hdr: &fsHdr{Typeflag: '5', Name: "a/b", Mode: 0o755, MTime: 1, Sum: "-"}},
+		fsOp{K: "wh", Hdr: &fsHdr{Typeflag: '5', Name: "c", Mode: 0o755, MTime: 1, Sum: "-"}})
+	n := r.Range(8, 40)
+	for len(c.Ops) < n {
+		switch k := r.Intn(100); {
+		case k < 45:
+			h := genFsHdr(r)
+			if r.Chance(60) {
+				h.Typeflag = '0'
+				h.Name = Pick(r, fsFiles)
+				h.Linkname = ""
+				h.Content = Pick(r, fsData)
+				h.Size = int64(len(h.Content))
+				h.Sum = hx(Pick(r, []string{"sum-one-sum-one-sum-1", "sum-two-sum-two-sum-2", "sum-" + h.Content}))
+			}
+			c.Ops = append(c.Ops, fsOp{K: "wh", Hdr: h})
+		case k < 55:
+			c.Ops = append(c.Ops, fsOp{K: "writefile", P: Pick(r, fsFiles), D: Pick(r, fsData), N: 0o644})
+		case k < 65:
+			c.Ops = append(c.Ops, fsOp{K: "open", P: Pick(r, fsFiles), M: Pick(r, fsFlags), N: 0o644})
+		case k < 80:
+			nh := countOpens(c.Ops)
+			if nh == 0 {
+				continue
+			}
+			c.Ops = append(c.Ops, Pick(r, []fsOp{{K: "read", H: nh - 1, N: 4}, {K: "write", H: nh - 1, D: "zz"}, {K: "seek", H: nh - 1, O: 2, M: 0},
+				{K: "readat", H: nh - 1, N: 3, O: 1}, {K: "hstat", H: nh - 1}, {K: "close", H: nh - 1}}))
+		case k < 90:
+			c.Ops = append(c.Ops, fsOp{K: Pick(r, []string{"readfile", "stat", "readdir", "remove"}), P: Pick(r, append(append([]string{}, fsFiles...), "a", "c", "a/b"))})
+		default:
+			c.Ops = append(c.Ops, genFsOp(r, "tarfs", countOpens(c.Ops)))
+		}
+	}
+	return c
 }
 
 func countOpens(ops []fsOp) int {
@@ -776,6 +821,11 @@ func (fsSuite) Gen(r *Rng, i int, tier string) any {
 	}
 	if i%10 == 7 {
 		return genDirfsCase(r)
+	}
+	if i%10 == 3 {
+		c := genFsPkgCase(r)
+		c.Ops = append(c.Ops, fsProbes(r, 6)...)
+		return c
 	}
 	backend := "memfs"
 	if r.Chance(45) {
